@@ -7,6 +7,7 @@
 From Coq Require Import List NArith ZArith.
 Import ListNotations.
 From PP Require Import Base Syntax Spec SpecSyn SpecMono SpecNoErr SpecWf SpecTerm SpecCert Grammars.
+From PP Require Front FrontProof.
 
 Theorem C11_never_abnormal : forall f text,
   parse meta_grammar f meta_grammar_start text 0 <> Err.
@@ -48,7 +49,22 @@ Qed.
 Example empty_grammar : exists s, parse meta_grammar 100 meta_grammar_start [] 0 = Ok s [Pair EOI_ID 0 0 [] None].
 Proof. eexists. vm_compute. reflexivity. Qed.
 
+(* ---- python-pest's own front end, as modelled (Front.v: a function-by-function transcription of
+   scanner.py, grammar/parser.py, unescape.py and Parser.from_grammar with optimizer=None, every Python
+   operation that can raise made explicit; tied to the code on every run: identical rule table -
+   names, modifiers, docs, tags, expression trees - or identical error position on every generated
+   text): for EVERY text it returns a rule table or a grammar syntax error - no other exception, and the
+   fuel it runs on always suffices - and an error position lies inside the text. Proof: FrontProof.v.
+   Not modelled: CPython's recursion limit (the library turns it into a grammar error), message texts. *)
+Theorem C11_front_end_total : forall t,
+  match Front.front t with Front.FOk _ | Front.FSyntax _ => True | Front.FCrash _ | Front.FFuel => False end.
+Proof. exact FrontProof.front_total. Qed.
+Theorem C11_front_end_error_position : forall t p, Front.front t = Front.FSyntax p -> (p <= List.length t)%nat.
+Proof. exact FrontProof.front_error_position. Qed.
+
 Print Assumptions C11_never_abnormal.
 Print Assumptions C11_error_position_in_text.
 Print Assumptions C11_reader_terminates.
 Print Assumptions C11_reader_total.
+Print Assumptions C11_front_end_total.
+Print Assumptions C11_front_end_error_position.
